@@ -190,7 +190,8 @@ func (store *Store) transactionQueryContext(qb query.Builder, q GetTransactionsQ
 			}
 			switch address := value.(type) {
 			case string:
-				return filterAccountAddressOnTransactions(address, true, true), nil, nil
+				where, args := filterAccountAddressOnTransactions(address, true, true)
+				return where, args, nil
 			default:
 				return "", nil, newErrInvalidQuery("unexpected type %T for column 'account'", address)
 			}
@@ -201,7 +202,8 @@ func (store *Store) transactionQueryContext(qb query.Builder, q GetTransactionsQ
 			}
 			switch address := value.(type) {
 			case string:
-				return filterAccountAddressOnTransactions(address, true, false), nil, nil
+				where, args := filterAccountAddressOnTransactions(address, true, false)
+				return where, args, nil
 			default:
 				return "", nil, newErrInvalidQuery("unexpected type %T for column 'source'", address)
 			}
@@ -212,7 +214,8 @@ func (store *Store) transactionQueryContext(qb query.Builder, q GetTransactionsQ
 			}
 			switch address := value.(type) {
 			case string:
-				return filterAccountAddressOnTransactions(address, false, true), nil, nil
+				where, args := filterAccountAddressOnTransactions(address, false, true)
+				return where, args, nil
 			default:
 				return "", nil, newErrInvalidQuery("unexpected type %T for column 'destination'", address)
 			}
